@@ -167,7 +167,7 @@
               (finish-row))
              (else
               (write-char ch out)
-              (lp acc (+ index 1) quoted? out))))
+              (lp acc index quoted? out))))
            ((and (eqv? ch #\newline)
                  (eq? (csv-grammar-record-separator grammar) 'lax))
             (finish-row))
